@@ -55,6 +55,21 @@ INPUTS: dict[str, tuple[dict[str, str], str]] = {
         },
         "pk",
     ),
+    "T4b-equal-length-inferred-tuples": (
+        {
+            "pk/__init__.py": "",
+            "pk/m.py": "def tup(c):\n    if c == 1:\n        return 1, 2\n    if c == 2:\n        return 'a', 'b'\n    if c == 3:\n        return 1.5, 2.5\n    return True, None\n\n\nclass A:\n    pass\n\n\nclass B:\n    pass\n\n\ndef classes(c):\n    if c:\n        return A, B\n    return B, A\n",
+        },
+        "pk",
+    ),
+    "T10-names-differing-by-case": (
+        {
+            "pk/__init__.py": "",
+            "pk/ids.py": "class Id:\n    pass\n\n\nclass ID:\n    pass\n\n\nclass my_type:\n    pass\n\n\nclass MyType:\n    pass\n\n\nclass Mytype:\n    pass\n",
+            "pk/users.py": "from pk.ids import ID, Id, MyType, Mytype, my_type\n\n\ndef lookup(a: Id, b: ID, c: my_type, d: MyType, e: Mytype) -> None:\n    ...\n\n\nclass K(Id, ID):\n    x: MyType | my_type | Mytype | None = None\n",
+        },
+        "pk",
+    ),
     "T5-module-star-imported-twice": (
         {
             "pk/__init__.py": "from ._impl import *\n",
@@ -193,7 +208,7 @@ def run(rep: Report, tier: str, seed: int) -> None:
         for n in ("T1-two-equal-depth-reexporters", "T3-typevars", "T5-module-star-imported-twice", "T9-directory-order"):
             bound_for[n] = 2
     for name, (files, src_rel) in INPUTS.items():
-        for opts in ([Opts(), Opts(convert=True, docstyle="NUMPYDOC")] if tier == "thorough" and bound_for[name] == 1 else [Opts()]):
+        for opts in ([Opts(), Opts(convert=True, docstyle="NUMPYDOC")] if (tier == "thorough" and bound_for[name] == 1) or name.startswith("T10") else [Opts()]):
             st = explore(rep, name, files, src_rel, opts, bound_for[name])
             per_input[f"{name}|{opts.key()}"] = {k: v for k, v in st.items()}
             rep.case(f"schedules:{name}:{opts.key()}:d{bound_for[name]}", True, sample={"input": name, "bound": bound_for[name], **{k: v for k, v in st.items() if k != "sites_changing_output"}})
@@ -272,7 +287,7 @@ def run(rep: Report, tier: str, seed: int) -> None:
     finally:
         shutil.rmtree(d, ignore_errors=True)
     rep.rule = (
-        "9 inputs with forced ties (two equal-depth re-exporters, equal short names, three TypeVars, inferred tuple results, a module star-imported by several packages, 3-member unions/literals, 4 TODO markers, foreign classes from several libraries, modules spread over directories): "
+        "11 inputs with forced ties (two equal-depth re-exporters, equal short names, three TypeVars, inferred tuple results, a module star-imported by several packages, 3-member unions/literals, 4 TODO markers, foreign classes from several libraries, modules spread over directories): "
         f"every schedule with <= 1 deviation (thorough: <= 2 on 4 inputs, second option set, every 9th doubly re-exporting C03 tree) at the choice points 'iteration of a tool-built set with >=2 elements' and 'listing of a package directory with >=2 entries' (all n! orders for n<=3, rotations+reversal above); "
         f"{K} real interpreter runs per input with PYTHONHASHSEED=0..{K - 1}; 8 real runs over path spellings / working directories / repetition with mypy's cache; distinct = one exploration per (input, options)"
     )
